@@ -15,7 +15,11 @@ type bodyStreamHeader interface {
 }
 
 type requestStream struct {
-	header          bodyStreamHeader
+	header bodyStreamHeader
+	// contentLength is the framing of the message as it was received
+	// (-1 for chunked). The header object stays under the control of the
+	// user, who may change it while the body is still on the connection.
+	contentLength   int
 	prefetchedBytes *bytes.Reader
 	reader          *bufio.Reader
 	totalBytesRead  int
@@ -26,14 +30,14 @@ type requestStream struct {
 // drained reports whether the whole request body has been taken off the
 // connection, i.e. whether the next request starts right after it.
 func (rs *requestStream) drained() bool {
-	if rs.header.ContentLength() == -1 {
+	if rs.contentLength == -1 {
 		return rs.eof
 	}
 	n := rs.totalBytesRead
 	if rs.prefetchedBytes != nil && int(rs.prefetchedBytes.Size()) > n {
 		n = int(rs.prefetchedBytes.Size())
 	}
-	return n >= rs.header.ContentLength()
+	return n >= rs.contentLength
 }
 
 func (rs *requestStream) Read(p []byte) (int, error) {
@@ -41,7 +45,7 @@ func (rs *requestStream) Read(p []byte) (int, error) {
 		n   int
 		err error
 	)
-	if rs.header.ContentLength() == -1 {
+	if rs.contentLength == -1 {
 		if rs.eof {
 			// The last chunk and the trailer have been consumed: what follows
 			// on the connection belongs to the next message.
@@ -74,7 +78,7 @@ func (rs *requestStream) Read(p []byte) (int, error) {
 		}
 		return n, err
 	}
-	if rs.totalBytesRead == rs.header.ContentLength() {
+	if rs.totalBytesRead == rs.contentLength {
 		return 0, io.EOF
 	}
 	prefetchedSize := int(rs.prefetchedBytes.Size())
@@ -85,12 +89,12 @@ func (rs *requestStream) Read(p []byte) (int, error) {
 		}
 		n, err := rs.prefetchedBytes.Read(p)
 		rs.totalBytesRead += n
-		if n == rs.header.ContentLength() {
+		if n == rs.contentLength {
 			return n, io.EOF
 		}
 		return n, err
 	}
-	left := rs.header.ContentLength() - rs.totalBytesRead
+	left := rs.contentLength - rs.totalBytesRead
 	if left > 0 && len(p) > left {
 		p = p[:left]
 	}
@@ -100,7 +104,7 @@ func (rs *requestStream) Read(p []byte) (int, error) {
 		return n, err
 	}
 
-	if rs.totalBytesRead == rs.header.ContentLength() {
+	if rs.totalBytesRead == rs.contentLength {
 		err = io.EOF
 	}
 	return n, err
@@ -111,6 +115,7 @@ func acquireRequestStream(b *bytebufferpool.ByteBuffer, r *bufio.Reader, h bodyS
 	rs.prefetchedBytes = bytes.NewReader(b.B)
 	rs.reader = r
 	rs.header = h
+	rs.contentLength = h.ContentLength()
 	return rs
 }
 
@@ -119,6 +124,7 @@ func releaseRequestStream(rs *requestStream) {
 	rs.totalBytesRead = 0
 	rs.chunkLeft = 0
 	rs.eof = false
+	rs.contentLength = 0
 	rs.reader = nil
 	rs.header = nil
 	requestStreamPool.Put(rs)
